@@ -99,3 +99,22 @@ contract(OF, 'OscNrtInterface._get_timetag', props=('C07',),
          returns='int',
          ensures=[('relative-in-routines-absolute-outside', nrt_timetag)],
          modifies=[], fields=FIELDS, class_modules=CM)
+
+
+# the score's own copy of the NRT stamping rule (the source says the two must stay in sync)
+def score_time(c):
+    in_routine = z3.Const('main.current_tt#id', Any) != z3.Const('main.main_tt#id', Any)
+    if c.kinds['time'] == 'none':
+        t = z3.RealVal(0)
+    else:
+        t0 = z3.ToReal(c.time) if z3.is_int(c.time) else c.time
+        t = z3.If(t0 < 0, 0, t0)
+    return c.result == z3.If(in_routine, t + c.send_time, t)
+
+
+contract(OF, 'OscScore._get_logical_time', props=('C07', 'C10'),
+         params={'self': 'self', 'send_time': 'real', 'time': ['none', 'int', 'real']},
+         requires=lambda c: c.send_time >= 0,
+         returns='real',
+         ensures=[('same-rule-as-the-nrt-timetag', score_time)],
+         modifies=[], fields=FIELDS, class_modules=dict(CM, OscScore=OF))
